@@ -67,3 +67,9 @@ def oracle_race(case, obs):
 
 FAMILIES.append(Family("globals_race", gen_race, impl_race, None, None, oracle_race,
                        lambda case, obs: json.dumps(case), shard=30, case_timeout=30))
+
+
+# fixed feature programs (lib/progs.py CORPUS_FEATURES) run first under every seed
+for _f in FAMILIES:
+    if _f.name in ("programs", "roundtrip"):
+        _f.corpus = list(_f.corpus or []) + [dict(c) for c in progs.CORPUS_FEATURES]
